@@ -113,14 +113,12 @@ func (fr *Frame) loopCut(b *ssa.BasicBlock, ord int, ci *cfgInfo) {
 	}
 	if c := r.Contract; c != nil {
 		for _, tr := range c.Tracks {
-			if !eff.called[tr.Callee] && !eff.all && !eff.ghostAll {
-				// the loop cannot call it (unknown callees may: eff.all)
-				hasDyn := false
-				_ = hasDyn
+			if !eff.called[tr.Callee] {
+				// call logs record the calls made by this unit's own code: no call site in the loop, no change
 				continue
 			}
 			for k, old := range fr.st.ghost {
-				if k == "calls."+tr.Alias || strings.HasPrefix(k, "res."+tr.Alias+".") || strings.HasPrefix(k, "arg."+tr.Alias+".") {
+				if k == "calls."+tr.Alias || strings.HasPrefix(k, "res."+tr.Alias+".") || strings.HasPrefix(k, "arg."+tr.Alias+".") || strings.HasPrefix(k, "last."+tr.Alias+".") {
 					fr.st.ghost[k] = r.Sc.FreshConst("lp.g", old.Sort)
 				}
 			}
